@@ -18,6 +18,14 @@ TEXT = {
  "C14": ("model_checking", "route independence: same content through vio/fd/path/embedded/pipe validated against one content map; byte identity across write routes; descriptor closed iff close_desc (CloseOK)", "TraceCore validation across routes"),
  "C15": ("fault_enumeration", "complete enumeration of fault points x kinds x persistence for representative workloads, each execution validated by TLC with the widened (relax) outcome sets of SfHandle; watchdog for non-returning calls; ledger at scenario end", "fault enumeration + TraceCore (relax clauses)"),
  "C16": ("model_checking", "ledger clauses EndOK / OpenFailedOK evaluated by TLC on every scenario: heap (ASan allocator statistics), descriptors, temp files; dedicated sweep of opens failing at each parse depth", "TraceCore ledger clauses"),
+ "C02": ("model_checking", "the conversion rules as exact arithmetic in TLA+ (SfConv: MSB rule, offset 128, value/2^(w-1), nearest integer to x*(2^(w-1)-1) with the float-precision product, saturation) evaluated by TLC on recorded (input, output) pairs: all 65536 shorts and all 8/16 bit codes exhaustively, sampled 24/32 bit codes, the full 8/16 bit float target grids; identities model-checked in MC_conv", "TraceConv (SfConv rules) + MC_conv"),
+ "C03": ("exploration", "structure-aware mutation of valid files of every format, each execution validated by TLC in the hostile class of TraceCore (NULL+error or sane SF_INFO; counts, positions, guard bands; every call returns; ledger), memory errors observed by ASan; sampling of the input space, not a proof about the parsers", "mutation corpus + TraceCore hostile-class validation"),
+ "C10": ("model_checking", "the agreement predicate Consistent (sf_format_check = sf_open(SFM_WRITE) outcome, accepted tuples write through 4 types, close, re-open as the same format; rejected ones fail with an error) and the enumeration soundness clauses evaluated by TLC on the complete grid (thorough) / a sub-grid reaching every rule (quick)", "TraceFormat over the complete format grid"),
+ "C12": ("model_checking", "Get(Reopen(Set v)) = Norm(v) decided by TLC (GetMetaOK: support matrix, software suffix, CR/LF normalisation, appended history line, per-container representable fields) for strings, bext, cart, cues, instrument, channel map over lengths up to the limits and several orders", "TraceCore metadata clauses"),
+ "C13": ("model_checking", "chunk table model (MC_chunks: used <= capacity through every growth step, iterator visits once) and trace validation of set/iterate/get on WAV, WAVEX, RF64, AIFF, CAF with counts crossing every capacity step; hook reports used/capacity; guard bands and ASan", "MC_chunks + TraceCore chunk clauses"),
+ "C17": ("model_checking", "TraceCmd: for every command id x datasize x {NULL, exact-size block fenced by a PROT_NONE page} x handle state: no access outside the block, defined return, NUL termination, queries are stuttering steps on the complete hook snapshot and backing store", "TraceCmd over the command grid"),
+ "C18": ("model_checking", "true maxima computed by TLC from the content the model holds (exact dyadics on the k/1024 grid / integer codes) and compared with PEAK values and positions, SFC_GET_* after re-open and SFC_CALC_* results; position and normalisation unchanged", "TraceCore C18 clauses (CalcValsOK, PeakQOK)"),
+ "C20": ("model_checking", "G.711 written in TLA+ from the Recommendation (SfG711) compared with the library on all 256 codes and all 65536 inputs through every sample type; portable IEEE serialisers against the native bit pattern on stratified patterns; byte order of integers; identities of the definitions model-checked (MC_conv). ADPCM reference decoders are not part of this version", "TraceConv (SfG711) + MC_conv"),
 }
 NOTE = "trusted: TLC, the driver's faithful reporting (harness/sfdrive.c), the hook sf_verif_snapshot (read-only copy of handle fields), clang ASan; bounded inputs as listed in the evidence file"
 
